@@ -218,37 +218,62 @@ theorem staleDeletes_kind (s : St) (st : Step) (h : st ∈ staleDeletes s) :
     · right; exact ⟨i, by simpa using h⟩
     · simp at h
 
+theorem mem_phaseSteps (mk : Nat → Step) (kOf : List Nat → Step) : ∀ (L done : List Nat) (st : Step),
+    st ∈ phaseSteps mk kOf done L → (∃ d, st = kOf d) ∨ (∃ a ∈ L, st = mk a) := by
+  intro L
+  induction L with
+  | nil => intro done st h; simp [phaseSteps] at h
+  | cons a L ih =>
+    intro done st h
+    simp only [phaseSteps, List.mem_cons] at h
+    rcases h with rfl | rfl | h
+    · exact Or.inl ⟨_, rfl⟩
+    · exact Or.inr ⟨a, List.mem_cons_self .., rfl⟩
+    · rcases ih _ st h with h | ⟨b, hb, rfl⟩
+      · exact Or.inl h
+      · exact Or.inr ⟨b, List.mem_cons_of_mem _ hb, rfl⟩
+
+/-- what a rebuild writes -/
+theorem rebuild_mem (s : St) (f : Bool) (o1 o2 : List Nat) (st : Step) (h : st ∈ rebuildSteps s f o1 o2) :
+    (∃ i, i ∈ o1 ∧ i ∈ s.issuers ∧
+      st = .putCRL i (counter s i) (if s.cfg.disable then [] else crlSerials s i) s.cfg.disable) ∨
+    st ∈ staleDeletes s ∨ (∃ cs, st = .putCounters cs) ∨ (∃ i n, st = .putDelta i n) := by
+  unfold rebuildSteps at h
+  split at h
+  · simp at h
+  · simp only [List.mem_append, List.mem_singleton] at h
+    rcases h with (((h | h) | rfl) | h) | rfl
+    · rcases mem_phaseSteps _ _ _ _ _ h with ⟨d, rfl⟩ | ⟨i, hi, rfl⟩
+      · exact Or.inr (Or.inr (Or.inl ⟨_, rfl⟩))
+      · have := List.mem_filter.mp hi
+        exact Or.inl ⟨i, this.1, by simpa using this.2, rfl⟩
+    · exact Or.inr (Or.inl h)
+    · exact Or.inr (Or.inr (Or.inl ⟨_, rfl⟩))
+    · rcases mem_phaseSteps _ _ _ _ _ h with ⟨d, rfl⟩ | ⟨i, hi, rfl⟩
+      · exact Or.inr (Or.inr (Or.inl ⟨_, rfl⟩))
+      · exact Or.inr (Or.inr (Or.inr ⟨_, _, rfl⟩))
+    · exact Or.inr (Or.inr (Or.inl ⟨_, rfl⟩))
+
 theorem rebuild_safe (g : Tgt) (n : Nat) (s : St) (f : Bool) (o1 o2 : List Nat)
     (hc : s.certs[g.k]? = some g.c) (hl : n ≤ g.c.notAfter → s.revoked.lookup g.k = some g.t) :
     ∀ st ∈ rebuildSteps s f o1 o2, Safe g n st := by
   intro st hst
-  unfold rebuildSteps at hst
-  split at hst
-  · simp at hst
-  · simp only [List.mem_append, List.mem_map, List.mem_filter, List.mem_singleton] at hst
-    rcases hst with (((⟨i, ⟨_, hi⟩, rfl⟩ | h) | rfl) | ⟨i, _, rfl⟩) | rfl
-    · intro h1 h2 h3
-      have hi' : g.c.issuer ∈ s.issuers := by subst h1; simpa using hi
-      subst h1
-      simp only [h2]
-      exact mem_crlSerials s g hc (hl h3) hi'
-    · rcases staleDeletes_kind s st h with ⟨i, rfl⟩ | ⟨i, rfl⟩ <;> trivial
-    · trivial
-    · trivial
-    · trivial
+  rcases rebuild_mem s f o1 o2 st hst with ⟨i, _, hi, rfl⟩ | h | ⟨_, rfl⟩ | ⟨_, _, rfl⟩
+  · intro h1 h2 h3
+    subst h1
+    simp only [h2]
+    exact mem_crlSerials s g hc (hl h3) hi
+  · rcases staleDeletes_kind s st h with ⟨i, rfl⟩ | ⟨i, rfl⟩ <;> trivial
+  · trivial
+  · trivial
 
 theorem rebuild_noTick (s : St) (f : Bool) (o1 o2 : List Nat) : ∀ st ∈ rebuildSteps s f o1 o2, isTick st = false := by
   intro st hst
-  unfold rebuildSteps at hst
-  split at hst
-  · simp at hst
-  · simp only [List.mem_append, List.mem_map, List.mem_filter, List.mem_singleton] at hst
-    rcases hst with (((⟨i, _, rfl⟩ | h) | rfl) | ⟨i, _, rfl⟩) | rfl
-    · rfl
-    · rcases staleDeletes_kind s st h with ⟨i, rfl⟩ | ⟨i, rfl⟩ <;> rfl
-    · rfl
-    · rfl
-    · rfl
+  rcases rebuild_mem s f o1 o2 st hst with ⟨i, _, _, rfl⟩ | h | ⟨_, rfl⟩ | ⟨_, _, rfl⟩
+  · rfl
+  · rcases staleDeletes_kind s st h with ⟨i, rfl⟩ | ⟨i, rfl⟩ <;> rfl
+  · rfl
+  · rfl
 
 /-- what the two tidy passes can contain -/
 theorem tidyPass_kind (s : St) (cs rc assoc : Bool) (st : Step)
@@ -546,18 +571,13 @@ theorem applySteps_cons (s : St) (a : Step) (l : List Step) : applySteps s (a ::
 theorem rebuild_kind (s : St) (f : Bool) (o1 o2 : List Nat) (st : Step) (h : st ∈ rebuildSteps s f o1 o2) :
     (∃ i n ser d, st = .putCRL i n ser d) ∨ (∃ i, st = .delCRL i) ∨ (∃ i, st = .delDelta i) ∨
     (∃ cs, st = .putCounters cs) ∨ (∃ i n, st = .putDelta i n) := by
-  unfold rebuildSteps at h
-  split at h
-  · simp at h
-  · simp only [List.mem_append, List.mem_map, List.mem_filter, List.mem_singleton] at h
-    rcases h with (((⟨i, _, rfl⟩ | h) | rfl) | ⟨i, _, rfl⟩) | rfl
-    · exact Or.inl ⟨_, _, _, _, rfl⟩
-    · rcases staleDeletes_kind s st h with ⟨i, rfl⟩ | ⟨i, rfl⟩
-      · exact Or.inr (Or.inl ⟨i, rfl⟩)
-      · exact Or.inr (Or.inr (Or.inl ⟨i, rfl⟩))
-    · exact Or.inr (Or.inr (Or.inr (Or.inl ⟨_, rfl⟩)))
-    · exact Or.inr (Or.inr (Or.inr (Or.inr ⟨_, _, rfl⟩)))
-    · exact Or.inr (Or.inr (Or.inr (Or.inl ⟨_, rfl⟩)))
+  rcases rebuild_mem s f o1 o2 st h with ⟨i, _, _, rfl⟩ | h | ⟨_, rfl⟩ | ⟨_, _, rfl⟩
+  · exact Or.inl ⟨_, _, _, _, rfl⟩
+  · rcases staleDeletes_kind s st h with ⟨i, rfl⟩ | ⟨i, rfl⟩
+    · exact Or.inr (Or.inl ⟨i, rfl⟩)
+    · exact Or.inr (Or.inr (Or.inl ⟨i, rfl⟩))
+  · exact Or.inr (Or.inr (Or.inr (Or.inl ⟨_, rfl⟩)))
+  · exact Or.inr (Or.inr (Or.inr (Or.inr ⟨_, _, rfl⟩)))
 
 /-- a write leaves the revocation entry `(k', t')` alone -/
 def Keeps (k' t' : Nat) : Step → Prop
@@ -748,27 +768,35 @@ theorem keepsServed_steps (i : Nat) (l : List Step) : ∀ s, (∀ st ∈ l, Keep
     rw [applySteps_cons, ih _ (fun st hst => h st (List.mem_cons_of_mem _ hst)),
       keepsServed_step i s a (h a (List.mem_cons_self ..))]
 
-theorem putCRLs_served (i : Nat) (f : Nat → Nat) (g : Nat → List Nat) (d : Bool) (L : List Nat) :
-    ∀ s, i ∈ s.issuers → (served s i = some (f i, g i) ∨ i ∈ L) →
-      served (applySteps s (L.map fun j => Step.putCRL j (f j) (g j) d)) i = some (f i, g i) := by
+theorem putCRLs_served (i : Nat) (f : Nat → Nat) (g : Nat → List Nat) (d : Bool) (kOf : List Nat → Step)
+    (hk : ∀ dn, KeepsServed i (kOf dn)) (L : List Nat) :
+    ∀ s done, i ∈ s.issuers → (served s i = some (f i, g i) ∨ i ∈ L) →
+      served (applySteps s (phaseSteps (fun j => Step.putCRL j (f j) (g j) d) kOf done L)) i = some (f i, g i) := by
   induction L with
   | nil =>
-    intro s _ h
+    intro s done _ h
     rcases h with h | h
     · exact h
     · simp at h
   | cons a L ih =>
-    intro s hi h
-    rw [List.map_cons, applySteps_cons]
-    have hi' : i ∈ (applyStep s (Step.putCRL a (f a) (g a) d)).issuers := by simpa [applyStep] using hi
+    intro s done hi h
+    simp only [phaseSteps]
+    rw [applySteps_cons, applySteps_cons]
+    have hs1 : served (applyStep s (kOf (a :: done))) i = served s i := keepsServed_step i s _ (hk _)
+    have hi1 : i ∈ (applyStep s (kOf (a :: done))).issuers := by
+      have := hk (a :: done)
+      cases hkk : kOf (a :: done) <;> simp_all [applyStep, KeepsServed]
+    have hi' : i ∈ (applyStep (applyStep s (kOf (a :: done))) (Step.putCRL a (f a) (g a) d)).issuers := by
+      simpa [applyStep] using hi1
     by_cases ha : a = i
     · subst ha
-      refine ih _ hi' (Or.inl ?_)
-      simp [served, applyStep, hi, lookup_setAssoc_self]
-    · refine ih _ hi' ?_
+      refine ih _ _ hi' (Or.inl ?_)
+      generalize applyStep s (kOf (a :: done)) = S at hi1
+      simp [served, applyStep, hi1, lookup_setAssoc_self]
+    · refine ih _ _ hi' ?_
       rcases h with h | h
       · left
-        rw [keepsServed_step i s _ (by simpa [KeepsServed] using ha)]
+        rw [keepsServed_step i _ _ (by simpa [KeepsServed] using ha), hs1]
         exact h
       · right
         rcases List.mem_cons.mp h with h | h
@@ -795,14 +823,16 @@ theorem rebuild_serves (s : St) (f : Bool) (o1 o2 : List Nat) (i : Nat) (hi : i 
   simp only [Bool.false_eq_true, ↓reduceIte]
   rw [applySteps_append, applySteps_append, applySteps_append, applySteps_append]
   rw [keepsServed_steps, keepsServed_steps, keepsServed_steps, keepsServed_steps]
-  · exact putCRLs_served i (counter s) (fun j => if s.cfg.disable then [] else crlSerials s j) s.cfg.disable _ s hi
+  · exact putCRLs_served i (counter s) (fun j => if s.cfg.disable then [] else crlSerials s j) s.cfg.disable
+      (fun done => Step.putCounters (countersAt s 0 done true)) (fun _ => trivial) _ s [] hi
       (Or.inr (List.mem_filter.mpr ⟨ho, by simpa using hi⟩))
   · intro st hst
     rcases staleDeletes_kind' s st hst with ⟨j, rfl, hj⟩ | ⟨j, rfl⟩
     · exact fun e => hj (e ▸ hi)
     · trivial
   · intro st hst; simp only [List.mem_singleton] at hst; subst hst; trivial
-  · intro st hst; simp only [List.mem_map] at hst; obtain ⟨j, _, rfl⟩ := hst; trivial
+  · intro st hst
+    rcases mem_phaseSteps _ _ _ _ _ hst with ⟨dn, rfl⟩ | ⟨j, _, rfl⟩ <;> trivial
   · intro st hst; simp only [List.mem_singleton] at hst; subst hst; trivial
 
 /-- the state right after the revocation record has been written -/
